@@ -7,7 +7,7 @@
    as transcribed in C20/Model.v; [hash_key v a] the tuple fed to hash().  [v] selects,
    for two recorded findings, the behaviour of the code under test (the harness measures
    it): theorems are stated for the repaired behaviour, refutations for the current one. *)
-From Coq Require Import ZArith List Bool Reals.
+From Coq Require Import ZArith List Bool Reals String.
 From Verif Require Import Base.Num Base.Check C20.Syntax C20.Model C20.Proofs.
 Import ListNotations.
 
@@ -104,3 +104,98 @@ Theorem weighting_eq_implies_equal_hash_refuted :
   exists a b : weighting R, w_eqb a b = true /\
     key_eqv (w_key current_variants a) (w_key current_variants b) = false.
 Proof. exact w_hash_refuted. Qed.
+
+(* ================================================================ derived spaces
+   (C20/Derived.v: astype/_astype, real/complex counterparts, ProductSpace.dtype/astype/
+   __getitem__, Python slices; dtype predicates regenerated from odl.util into Gen/C20Tables.v;
+   [dv] selects the current or the repaired behaviour of four recorded findings).
+   Theorems hold for every carrier T, every nesting depth and every list length. *)
+From Verif Require Import Gen.C20Tables C20.Derived C20.DerivedProofs C20.HashTab C20.Tables.
+
+(* space.astype(d) has the shapes / partitions of space at every leaf and the same product
+   structure, whatever the variant *)
+Theorem astype_keeps_shapes_and_partitions : forall dv (a : obj R) d b,
+  oastype dv a d = Ok b -> skel_of b = skel_of a.
+Proof. exact (@oastype_skel R _). Qed.
+Print Assumptions astype_keeps_shapes_and_partitions.
+
+(* every leaf of space.astype(d) has dtype d (d a dtype NumpyTensorSpace supports) *)
+Theorem astype_sets_dtype : forall dv (a : obj R) d b, is_available d = true ->
+  oastype dv a d = Ok b -> Forall (fun t => ts_dtype t = d) (leaves b).
+Proof. exact (@oastype_dtype R _). Qed.
+Print Assumptions astype_sets_dtype.
+
+(* the leaf weightings (and exponents) are those of the source whenever _astype passes the
+   weighting on: for floating-point targets in the current code, for every numeric target in
+   the repaired code *)
+Theorem astype_keeps_leaf_weightings : forall dv (a : obj R) d b,
+  (if dv_astype_num_keeps_w dv then is_numeric d else is_floating d) = true ->
+  oastype dv a d = Ok b -> map (@ts_w R) (leaves b) = map (@ts_w R) (leaves a).
+Proof. exact (@oastype_leaf_weights R _). Qed.
+(* FULL statement for the current code (any numeric d) is false: *)
+Theorem astype_keeps_leaf_weightings_refuted :
+  exists (a : obj R) d b, is_numeric d = true /\ oastype current_dvariants a d = Ok b /\
+    map (@ts_w R) (leaves b) <> map (@ts_w R) (leaves a).
+Proof. exact leafw_refuted. Qed.
+
+(* the weightings of the product-space nodes survive astype in the repaired code ... *)
+Theorem astype_keeps_product_weightings : forall dv, dv_ps_astype_keeps_w dv = true ->
+  forall (a : obj R) d b, oastype dv a d = Ok b -> pweights b = pweights a.
+Proof. exact (@oastype_prod_weights R _). Qed.
+(* ... and are lost in the current code *)
+Theorem astype_keeps_product_weightings_refuted :
+  exists (a : obj R) d b, oastype current_dvariants a d = Ok b /\ pweights b <> pweights a.
+Proof. exact prodw_refuted. Qed.
+Print Assumptions astype_keeps_product_weightings.
+
+(* Python slices: every selected position is a valid index, for all n, start, stop, step *)
+Theorem slice_positions_valid : forall n s ps, (0 <= n)%Z ->
+  slice_positions n s = Ok ps -> Forall (fun p => 0 <= p < n)%Z ps.
+Proof. exact slice_positions_in_range. Qed.
+Print Assumptions slice_positions_valid.
+
+(* pspace[slice] consists of the components at the slice positions, in order, with the field
+   of the parent (weighting: the parent's constant one if repaired, the default one now) *)
+Theorem pspace_getitem_slice_is_selection : forall dv (l : list (obj R)) w f s b,
+  ogetitem dv (OProd l w f) (PSlice s) = Ok b ->
+  exists ps ss, slice_positions (Z.of_nat (List.length l)) s = Ok ps /\
+    Forall2 (fun p x => nth_error l (Z.to_nat p) = Some x) ps ss /\
+    b = OProd ss (match sub_w dv w with Some w' => w' | None => default_ps_w end) f.
+Proof. exact (@getitem_slice_spec R _). Qed.
+Theorem pspace_getitem_slice_never_index_error : forall (l : list (obj R)) s,
+  select_slice l s <> ErrIndex /\ select_slice l s <> ErrType.
+Proof. exact (@select_slice_no_index_error (obj R)). Qed.
+Theorem pspace_getitem_int_is_component : forall dv (l : list (obj R)) w f k b,
+  ogetitem dv (OProd l w f) (PInt k) = Ok b ->
+  let n := Z.of_nat (List.length l) in
+  (- n <= k < n)%Z /\ nth_error l (Z.to_nat (if (k <? 0)%Z then k + n else k)) = Some b.
+Proof. exact (@getitem_int_spec R _). Qed.
+Theorem pspace_getitem_keeps_weighting_refuted :
+  exists (a : obj R) s b, ogetitem current_dvariants a (PSlice s) = Ok b /\ pweights b <> [WConst KPs 2%R (EFin 2%R)]
+                          /\ pweights a = [WConst KPs 2%R (EFin 2%R)].
+Proof. exact getitemw_refuted. Qed.
+Print Assumptions pspace_getitem_slice_is_selection.
+
+(* ================================================================ hash tables regenerated from source
+   The tuple each __hash__ builds (read from the AST of the code under test into
+   Gen/C20Tables.v) is, for EVERY object of the class, the hash key of the model. *)
+Theorem hash_table_NumpyTensorSpace : forall v (t : tsp R),
+  interp KNone KNone (tensorspace_tab_key tNpyTensorSpace (ts_shape t) (ts_dtype t))
+    (fun h => match h with HAttr "weighting"%string => Some (w_key v (ts_w t)) | _ => None end) hf_NumpyTensorSpace
+  = hash_key v (OTensor t).
+Proof. exact (@tab_NumpyTensorSpace R _). Qed.
+Theorem hash_table_ProductSpace : forall v (l : list (obj R)) w f,
+  interp (tagk tProd) KNone KNone
+    (fun h => match h with
+              | HAttr "spaces"%string => Some (KTup (map (hash_key v) l))
+              | HAttr "weighting"%string => Some (w_key v w)
+              | _ => None end) hf_ProductSpace
+  = hash_key v (OProd l w f).
+Proof. exact (@tab_ProductSpace R _). Qed.
+Theorem hash_table_RectGrid : forall v (g : list (list R)),
+  interp (tagk tGrid) KNone KNone
+    (fun h => match h with
+              | HBytesEachPlusZero "coord_vectors"%string => Some (KTup (map (fun vec => KTup (map KNum vec)) g))
+              | _ => None end) hf_RectGrid
+  = hash_key v (OGrid g).
+Proof. exact (@tab_RectGrid R _). Qed.
